@@ -194,6 +194,7 @@ type Node struct {
 
 	// scripted callback results
 	FailPreBlock int  // ProcessPreBlock fails this many more times
+	PastLife     bool // restarted with empty state (driver B): peers hand it back what its index said in a previous life
 	FailSetData  int  // PreBlock.SetData fails this many more times (transient error while building the own pre-commit)
 	FailSign     int  // Block.Sign fails this many more times (transient signer error while building the own commit)
 	FailBlock    int  // ProcessBlock (anti-MEV only) fails this many more times
